@@ -41,6 +41,23 @@ fn c05_matrix_formula_any_q(q: Quaternion<R>) {
     vassert_eq("m3 entries (any q)", a3(m3), qmat(q));
     vcover("end");
 }
+// Floating-point "unit" quaternions are unit only up to rounding: for |q|^2 within 1e-6 of 1 all conversions still give
+// the same matrix (they are the same polynomials in q), entry for entry.  This is what exposes a shortcut such as
+// "scalar part == 1 => identity", which is right for exactly unit q and wrong for every representable neighbour.
+fn c05_near_unit(q: Quaternion<R>, v: Vector3<R>) {
+    let n2 = qnorm2(q);
+    vassume((n2 >= R(1.0 - 1e-6)) & (n2 <= R(1.0 + 1e-6)));
+    let m3: Matrix3<R> = q.into();
+    let b3: Basis3<R> = q.into();
+    let b3b = Basis3::from_quaternion(&q);
+    let m4: Matrix4<R> = q.into();
+    vassert_eq("Matrix3::from(q) entries", a3(m3), qmat(q));
+    vassert_eq("Basis3::from(q) = Matrix3::from(q)", Matrix3::from(b3), m3);
+    vassert_eq("Basis3::from_quaternion = Matrix3::from(q)", *b3b.as_ref(), m3);
+    vassert_eq("Matrix4::from(q) = embed Matrix3::from(q)", m4, Matrix4::from(m3));
+    vassert_eq("Basis3 rotates like Matrix3", b3.rotate_vector(v), m3 * v);
+    vcover("end");
+}
 fn c05_composition(p: Quaternion<R>, q: Quaternion<R>) {
     vassume_eq(qnorm2(p), R(1.0));
     vassume_eq(qnorm2(q), R(1.0));
